@@ -2,12 +2,12 @@
 # replay of a thread-engine violation: *.shuttle (persisted shuttle schedule) or *.miri (Miri command line)
 f="$1"
 case "$f" in
-*.shuttle) exec /verif/sim/target/release/sim threads --replay "$f" ;;
+*.shuttle) exec ${VERIF_ROOT:-/verif}/sim/target/release/sim threads --replay "$f" ;;
 *.miri)
     flags=$(grep '^MIRIFLAGS=' "$f" | head -1 | cut -d= -f2-)
     args=$(grep '^ARGS=' "$f" | head -1 | cut -d= -f2-)
     log=$(mktemp)
-    (cd /verif/sim && MIRIFLAGS="$flags" CARGO_NET_OFFLINE=true cargo +nightly miri run --offline --no-default-features -- $args >$log 2>&1)
+    (cd "${VERIF_ROOT:-/verif}/sim" && MIRIFLAGS="$flags" CARGO_NET_OFFLINE=true cargo +nightly miri run --offline --no-default-features -- $args >$log 2>&1)
     if grep -q "Undefined Behavior\|THREADS-VIOLATION" $log; then
         grep -E "Undefined Behavior|THREADS-VIOLATION" $log | head -3
         prop=$(basename "$f" | cut -d- -f1)
